@@ -20,8 +20,10 @@ crosses the sizes 8, 16, 32, 64, 128, 256 (1000 where cheap) while everything el
     names    every user-chosen name (register, lets, aliases, macros, macro parameters) is an unusual but legal
              spelling: dotted, pairs that differ by a dotted prefix / suffix only, dunder names, prefixes / extensions
              of keywords and of prepare_all / measure_all, `prepare_all` / `measure_all` themselves where the name
-             space is not the gate name space, a parameter that shadows a global name, names of 256 .. 1000 characters
-    defaults small programs, run through EVERY combination below
+             space is not the gate name space, a parameter that shadows a global name, names of 255 .. 1000 characters;
+             NATIVE gates with such names too (`cal.X q[0]`, `__X__`, `prepare_all.x`, `measure_al`, `subcircuit.X`)
+    defaults small programs with everything in them (a third of them with SX / HH); like all other cases they cycle
+             through the call variants below with co-prime strides, so every variant meets every stream
 
 Every program is rendered in two spellings - `subcircuit k { B }` and `prepare_all; B; measure_all` - through one of
 two construction paths (text -> parse_jaqal_string; S-expression -> circuitbuilder.build), and observed through
@@ -53,12 +55,15 @@ oracle (corr is empty):
   scale_run_like_explicit   same call on both spellings: same outcome class (result / JaqalError); same number of
                             subcircuits, identical probability vectors, same visit sequence, same sampled outcomes under the
                             same numpy seed; what a recording backend is handed is the same flat program for both
-                            spellings and contains no subcircuit block; and the subcircuit spelling agrees with the reference
-                            (sections, visits, the one possible outcome)
+                            spellings and contains no subcircuit block; and where the explicit spelling meets the reference
+                            (sections, visits, the one possible outcome) the subcircuit spelling meets it too
   scale_output_like_explicit same for parse_jaqal_output_list with one output per reference visit: same outcome class,
                             same (subcircuit, value) per readout, same per-subcircuit frequencies; reference attribution
-A call on the explicit spelling that the library refuses (`Program is nested too deeply` beyond its documented nesting
-limit, an output kind the parser does not take) only demands the same refusal for the subcircuit spelling.
+A call that the library refuses for the explicit spelling (`Program is nested too deeply` beyond its nesting limit, an
+output kind the parser does not take, anything else) is no failure of this property: it is counted in the distribution
+(`explicit_spelling_refused:*`) and only demands that the subcircuit spelling is refused as well.
+
+Recommended n: 100 (quick; every size of every stream at least once from n = 113 on), 800 (thorough).
 
 CLI: c09_scale.py [--seed S] [--n N] [--thorough]
 """
@@ -74,7 +79,7 @@ SIZES = {
     "header": [8, 11, 16, 32, 49, 64, 100, 128, 255, 256, 257, 1000],
     "wide": [8, 11, 16, 32, 64, 128, 200, 256, 1000],
     "iter": [8, 16, 32, 34, 64, 100, 128, 256, 1000],
-    "qubits": [8, 9, 10, 11, 12, 13, 14],
+    "qubits": [8, 9, 10, 11, 12, 13, 14, 16],
     "names": [0],
     "defaults": [0],
 }
@@ -93,6 +98,16 @@ RUN_VARIANTS = ("default", "backend", "emulator_backend", "force_sim", "none_non
 EXPAND_VARIANTS = ("default", "none_none", "kw_none", "str_native", "obj_native", "str_other", "obj_other", "prepare_only",
                    "measure_only", "no_native")
 OUT_KINDS = ("int", "str", "np_int64", "np_mixed", "mixed", "tuple", "np_array")
+# native gates with unusual but legal names (all of them act like X); the same source builds them for inject_pulses= and
+# inside the pulse-definition package that the autoloading entry points import
+XLIKE = ("cal.X", "X.cal", "__X__", "prepare_all.x", "measure_al", "x.measure_all", "subcircuit.X")
+EXTRA_SRC = """
+from jaqalpaq.core import GateDefinition as _GD, Parameter as _P, ParamType as _PT
+from harness.gates import GATES_IDLE as _GI, U_X as _UX
+ALL_GATES = dict(_GI)
+for _n in %r:
+    ALL_GATES[_n] = _GD(_n, [_P("q", _PT.QUBIT)], ideal_unitary=_UX)
+""" % (XLIKE,)
 MAX_VISITS = 1100
 NEST_LIMIT = 130      # up to this nesting depth / chain length the unchanged library runs every program of this script
 _real = {}
@@ -119,7 +134,9 @@ def _load():
     import warnings
     warnings.filterwarnings("ignore")
     import numpy
-    from harness.gates import GATES_IDLE as GI
+    ns = {}
+    exec(EXTRA_SRC, ns)
+    GI = ns["ALL_GATES"]
     from harness import timeouts as T
     from jaqalpaq.parser import parse_jaqal_string
     from jaqalpaq.run import run_jaqal_circuit, run_jaqal_string, run_jaqal_file
@@ -142,13 +159,14 @@ def _load():
 
     # a pulse-definition package for the entry points that load the gates themselves (autoload_pulses=True)
     d = tempfile.mkdtemp(prefix="c09scale_")
-    for pkg, extra in (("c09gates", ""), ("c09more", "ALL_GATES = dict(ALL_GATES)\nALL_GATES['X2'] = ALL_GATES['X']\n")):
+    import atexit, shutil
+    atexit.register(shutil.rmtree, d, True)
+    for pkg, extra in (("c09gates", ""), ("c09more", "ALL_GATES['X2'] = ALL_GATES['X']\n")):
         os.makedirs(os.path.join(d, pkg))
         with open(os.path.join(d, pkg, "__init__.py"), "w") as f:
             f.write("")
         with open(os.path.join(d, pkg, "jaqal_gates.py"), "w") as f:
-            f.write(f"import sys\nsys.path.insert(0, {root!r}) if {root!r} not in sys.path else None\n"
-                    "from harness.gates import GATES_IDLE as ALL_GATES\n" + extra)
+            f.write(f"import sys\nsys.path.insert(0, {root!r}) if {root!r} not in sys.path else None\n" + EXTRA_SRC + extra)
     _real.update(GI=GI, T=T, np=numpy, parse=parse_jaqal_string, run=run_jaqal_circuit, run_string=run_jaqal_string,
                  run_file=run_jaqal_file, USE=UnitarySerializedEmulator, Rec=RecordingEmulator, expand=expand_subcircuits,
                  outlist=parse_jaqal_output_list, build=CB.build, GateDefinition=GateDefinition, Macro=Macro,
@@ -564,6 +582,7 @@ ODD = ["cal.x", "x.cal", "a.b.c", "x.y.z.w", "__macro__", "__c10", "__r0", "__in
        "map.map", "macr", "macros", "macro.m", "registe", "reg", "register.q", "fro", "from.x", "a_s", "as.x", "usepulse", "usepulses.x",
        "branc", "impor", "import.y", "p0", "p1", "self", "None", "all", "lambda", "statements", "subcircuit_block", "sequential_block", "gate",
        "array_item", "X.q", "q.X", "x.X", "I", "I_", "pi", "e1", "inf", "nan", "x1e5", "b01", "q0", "q.0", "q.1", "r.q", "q.q", "q.r"]
+ODD = [x for x in ODD if x not in XLIKE]      # a macro may not carry the name of a native gate
 GATEISH = ["prepare_all", "measure_all"]    # legal wherever the name does not live in the gate name space (lets, aliases, registers, parameters)
 
 
@@ -581,6 +600,7 @@ def gen_names(rng, shape):
                  stem + ".q", "q." + stem, "c." + stem, stem + ".c", stem + ".d", "d." + stem]
         if stem not in ("prepare_all",):
             forms.append(stem)
+        forms = list(dict.fromkeys(forms))      # stem "q" makes some of them coincide
         rng.shuffle(forms)
         table = {}
         return gen_small(rng, names=lambda kind, i: table.setdefault((kind, i), forms[len(table)]))
@@ -648,7 +668,11 @@ def make_prog(spec):
     if st == "qubits":
         return gen_small(rng, nq=n)
     if st == "names":
-        return gen_names(rng, sh)
+        p = json.loads(json.dumps(gen_names(rng, sh)))
+        for s in walk_all(p):
+            if s[0] == "g" and s[1] == "X" and rng.random() < 0.6:
+                s[1] = rng.choice(XLIKE)
+        return p
     return gen_small(rng, quantum=rng.random() < 0.3)
 
 
@@ -821,7 +845,8 @@ class Ref:
             elif k == "sub":
                 nodes.append(("sec", self.section(s[2], penv)))
             elif k == "loop":
-                nodes.append(("loop", self.val(s[1], penv), self.static(s[2], penv)))
+                inner = self.static(s[2], penv)
+                nodes.append(("loop", self.val(s[1], penv), inner, any(nd[0] == "sec" or nd[3] for nd in inner)))
             elif k == "seq":
                 nodes += self.static(s[1], penv)
             elif k == "c":
@@ -848,7 +873,7 @@ class Ref:
                     raise RefError("too many gate applications")
                 q = [self.arg(a, penv)[1] for a in s[2]]
                 g = s[1]
-                if g == "X":
+                if g == "X" or g in XLIKE:
                     bits[q[0]] ^= 1
                 elif g == "CX":
                     bits[q[1]] ^= bits[q[0]]
@@ -876,12 +901,9 @@ class Ref:
                 self.visits.append(nd[1])
                 if len(self.visits) > MAX_VISITS:
                     raise RefError("too many visits")
-            elif self.has_sec(nd[2]):
+            elif nd[3]:
                 for _ in range(nd[1]):
                     self.dyn(nd[2])
-
-    def has_sec(self, nodes):
-        return any(nd[0] == "sec" or self.has_sec(nd[2]) for nd in nodes)
 
 
 # ------------------------------------------------------------------------------------------------------------------
@@ -951,14 +973,23 @@ def t_circuit(dc, pname, mname):
     return out
 
 
+def _short(path):
+    return path if len(path) <= 90 else f"{path[:20]}...({len(path)} characters)...{path[-50:]}"
+
+
 def first_diff(a, b, path="$"):
+    r = _first_diff(a, b, path)
+    return r and (_short(r.split(": ", 1)[0]) + ": " + r.split(": ", 1)[1] if ": " in r else _short(r))
+
+
+def _first_diff(a, b, path="$"):
     if type(a) != type(b):
         return f"{path}: {str(a)[:80]} != {str(b)[:80]}"
     if isinstance(a, dict):
         for k in a:
             if k not in b:
                 return f"{path}.{k} missing"
-            r = first_diff(a[k], b[k], f"{path}.{k}")
+            r = _first_diff(a[k], b[k], f"{path}.{k}")
             if r:
                 return r
         return None if set(a) == set(b) else f"{path}: keys differ"
@@ -966,7 +997,7 @@ def first_diff(a, b, path="$"):
         if len(a) != len(b) and all(not isinstance(x, list) for x in a + b):
             return f"{path}: {str(a)[:80]} != {str(b)[:80]}"
         for i, (x, y) in enumerate(zip(a, b)):
-            r = first_diff(x, y, f"{path}[{i}]")
+            r = _first_diff(x, y, f"{path}[{i}]")
             if r:
                 return r
         return None if len(a) == len(b) else f"{path}: length {len(a)} != {len(b)}"
@@ -1042,8 +1073,7 @@ class Collector:
         if not ok and len(o["failures"]) < 20:
             o["failures"].append({"case": case, "detail": detail})
         elif not ok:
-            o.setdefault("more_failures", 0)
-            o["more_failures"] += 1
+            self.count("failures_not_listed:" + name)
 
     def count(self, key, k=1):
         self.dist[key] = self.dist.get(key, 0) + k
@@ -1078,19 +1108,16 @@ def make_outputs(R, kind, rng, nvis, nq):
     return np.array(vals, dtype=np.int64), vals
 
 
-def build_pair(R, p, path, run_variant):
-    """the two spellings as circuits (+ texts)"""
-    usep = ()
-    if run_variant.startswith(("string", "file")):
-        usep = (".c09gates", ".c09more") if run_variant == "string_two_usepulses" else (".c09gates",)
-    ts, te = to_text(p, "sub", usep), to_text(p, "exp", usep)
+def build_one(R, p, path, style):
     if path == "sexpr":
-        cs = R["build"](to_sexpr(p, "sub"), inject_pulses=R["GI"])
-        ce = R["build"](to_sexpr(p, "exp"), inject_pulses=R["GI"])
-    else:
-        cs = R["parse"](to_text(p, "sub"), inject_pulses=R["GI"], autoload_pulses=False)
-        ce = R["parse"](to_text(p, "exp"), inject_pulses=R["GI"], autoload_pulses=False)
-    return cs, ce, ts, te
+        return R["build"](to_sexpr(p, style), inject_pulses=R["GI"])
+    return R["parse"](to_text(p, style), inject_pulses=R["GI"], autoload_pulses=False)
+
+
+def usepulses_for(run_variant):
+    if not run_variant.startswith(("string", "file")):
+        return ()
+    return {"string_two_usepulses": (".c09gates", ".c09more"), "file_emulator_backend": (".c09gates", ".c09gates")}.get(run_variant, (".c09gates",))
 
 
 def call_run(R, variant, circ, text, seed):
@@ -1167,12 +1194,44 @@ def same_summary(R, a, b):
     return None
 
 
+def ref_run(ref, ss):
+    msgs = []
+    if ss["nsub"] != len(ref.outcomes):
+        msgs.append(f"{ss['nsub']} subcircuits, reference {len(ref.outcomes)}")
+    elif ss["visits"] != ref.visits:
+        msgs.append(f"visit sequence {str(ss['visits'])[:80]} != reference {str(ref.visits)[:80]}")
+    else:
+        for i, sidx in enumerate(ss["visits"]):
+            o = ref.outcomes[sidx]
+            if o is not None and ss["values"][i] != o:
+                msgs.append(f"readout {i} of subcircuit {sidx} is {ss['values'][i]}, the only possible outcome is {o}")
+                break
+        for sidx, o in enumerate(ref.outcomes):
+            if o is not None and abs(float(ss["probs"][sidx][o]) - 1.0) > 1e-9:
+                msgs.append(f"subcircuit {sidx}: probability of the only possible outcome {o} is {ss['probs'][sidx][o]}")
+                break
+    return msgs
+
+
+def ref_out(ref, ss, vals):
+    msgs = []
+    if ss["nsub"] != len(ref.outcomes):
+        msgs.append(f"{ss['nsub']} subcircuits, reference {len(ref.outcomes)}")
+    elif ss["visits"] != ref.visits:
+        msgs.append(f"attribution {str(ss['visits'])[:80]} != reference {str(ref.visits)[:80]}")
+    elif ss["values"] != vals:
+        msgs.append(f"values {str(ss['values'])[:80]} != the outputs given {str(vals)[:80]}")
+    return msgs
+
+
 def attempt(R, fn):
-    """-> ("ok", value) | ("JaqalError", message); anything else propagates"""
+    """-> ("ok", value) | (name of the exception class, message); only a time-out propagates"""
     try:
         return "ok", fn()
-    except R["JaqalError"] as e:
-        return "JaqalError", str(e)
+    except Hang:
+        raise
+    except Exception as e:
+        return type(e).__name__, str(e)
 
 
 def expand_call(R, variant, c):
@@ -1237,12 +1296,16 @@ def run_case(R, spec, col, record=True):
     signal.alarm(int(T.limit(2)))
     try:
         # --- construction -------------------------------------------------------------------------------------
-        try:
-            cs, ce, ts, te = build_pair(R, p, path, v["run"])
-        except R["JaqalError"] as e:
-            judge("scale_accepted", False, f"building the program ({path}) raises JaqalError: {str(e)[:200]}")
+        usep = usepulses_for(v["run"])
+        ts, te = to_text(p, "sub", usep), to_text(p, "exp", usep)
+        ke, ce = attempt(R, lambda: build_one(R, p, path, "exp"))
+        if ke != "ok":
+            col.count("explicit_spelling_refused:build")      # nothing to compare with: not this property's business
             return fails
-        judge("scale_accepted", True)
+        ks, cs = attempt(R, lambda: build_one(R, p, path, "sub"))
+        judge("scale_accepted", ks == "ok", f"building the program ({path}) with subcircuit blocks raises {ks}: {str(cs)[:200]} - the explicit spelling is accepted")
+        if ks != "ok":
+            return fails
         # --- expand_subcircuits -------------------------------------------------------------------------------
         ev = v["expand"]
         target = cs
@@ -1254,9 +1317,9 @@ def run_case(R, spec, col, record=True):
         before = d_circuit(R, target)
         kind, got = attempt(R, lambda: expand_call(R, ev, target))
         if kind != "ok":
-            ok = big > NEST_LIMIT and "nested too deeply" in got
+            ok = big > NEST_LIMIT and (kind == "RecursionError" or "nested too deeply" in got)
             if not ok:
-                judge("scale_expand_shape", False, f"expand_subcircuits [{ev}] raises JaqalError: {got[:200]}")
+                judge("scale_expand_shape", False, f"expand_subcircuits [{ev}] raises {kind}: {got[:200]}")
         else:
             e, pname, mname, (chk_p, chk_m) = got
             want = t_circuit(before, pname, mname)
@@ -1268,7 +1331,7 @@ def run_case(R, spec, col, record=True):
                 diff = first_diff(blk, have)
                 judge("scale_expand_shape", diff is None, f"expand_subcircuits [{ev}] vs the program built with [prepare_all, B, measure_all] blocks: {diff}")
             left = subcircuits_left(R, e)
-            judge("scale_no_subcircuit_left", not left, f"expand_subcircuits [{ev}] leaves subcircuit blocks at {left[:3]}")
+            judge("scale_no_subcircuit_left", not left, f"expand_subcircuits [{ev}] leaves {len(left)} subcircuit block(s), e.g. at {_short(left[0]) if left else None}")
             msgs = []
             nfound = 0
             for first, last in bounding_statements(R, target, e):
@@ -1285,9 +1348,6 @@ def run_case(R, spec, col, record=True):
             if nfound < nsubs:
                 msgs.append(f"only {nfound} blocks of the result stand for the {nsubs} subcircuit blocks of the input")
             judge("scale_bounding_gates", not msgs, f"expand_subcircuits [{ev}]: " + "; ".join(msgs[:3]))
-            after = d_circuit(R, target)
-            if first_diff(before, after):
-                col.count("input_changed_by_expand")
         # --- execution ----------------------------------------------------------------------------------------
         emulate = p["nq"] <= 14
         if emulate:
@@ -1295,14 +1355,13 @@ def run_case(R, spec, col, record=True):
             ke, ge = attempt(R, lambda: call_run(R, rv, ce, te, spec["rs"] % 2 ** 31))
             ks, gs = attempt(R, lambda: call_run(R, rv, cs, ts, spec["rs"] % 2 ** 31))
             if ke != "ok":
-                if big <= NEST_LIMIT or "nested too deeply" not in ge:
-                    judge("scale_accepted", False, f"run [{rv}] refuses the explicit spelling: {ge[:200]}")
-                elif record:
-                    col.count("explicit_spelling_nested_too_deeply")
+                col.count("explicit_spelling_refused:run:" + ("nested too deeply" if "nested too deeply" in ge else ke))
                 if ks == "ok":
                     judge("scale_run_like_explicit", False, f"run [{rv}]: explicit spelling refused ({ge[:100]}), subcircuit spelling accepted")
+            elif ks != "ok" and big > NEST_LIMIT and "nested too deeply" in gs:
+                col.count("beyond_nest_limit:subcircuit_spelling_one_level_deeper")      # the block of the expansion is one more level
             elif ks != "ok":
-                judge("scale_run_like_explicit", False, f"run [{rv}]: the subcircuit spelling raises JaqalError: {gs[:200]} - the explicit spelling runs")
+                judge("scale_run_like_explicit", False, f"run [{rv}]: the subcircuit spelling raises {ks}: {gs[:200]} - the explicit spelling runs")
             else:
                 se, ss = summarize_run(R, ge[0]), summarize_run(R, gs[0])
                 d = same_summary(R, se, ss)
@@ -1310,48 +1369,36 @@ def run_case(R, spec, col, record=True):
                 if gs[1] is not None and ge[1] is not None:
                     left = subcircuits_left(R, gs[1])
                     d = first_diff(flat_dump(d_stmt(R, ge[1].body)), flat_dump(d_stmt(R, gs[1].body)))
-                    judge("scale_run_like_explicit", not left and d is None, f"run [{rv}]: the backend is handed a different program for the subcircuit spelling: {left[:2] or d}")
-                # the reference
-                msgs = []
-                if ss["nsub"] != len(ref.outcomes):
-                    msgs.append(f"{ss['nsub']} subcircuits, reference {len(ref.outcomes)}")
-                elif ss["visits"] != ref.visits:
-                    msgs.append(f"visit sequence {str(ss['visits'])[:80]} != reference {str(ref.visits)[:80]}")
+                    judge("scale_run_like_explicit", not left and d is None, f"run [{rv}]: the backend is handed a different program for the subcircuit spelling: {_short(left[0]) if left else d}")
+                # the reference: what `prepare_all; B; measure_all` means.  It is held against the subcircuit spelling only
+                # where the explicit spelling itself meets it (anything else is not the business of this property).
+                msgs, msgs_e = ref_run(ref, ss), ref_run(ref, se)
+                if msgs and msgs_e:
+                    col.count("reference_differs_from_both_spellings:run")
                 else:
-                    for i, sidx in enumerate(ss["visits"]):
-                        o = ref.outcomes[sidx]
-                        if o is not None and ss["values"][i] != o:
-                            msgs.append(f"readout {i} of subcircuit {sidx} is {ss['values'][i]}, the only possible outcome is {o}")
-                            break
-                    for sidx, o in enumerate(ref.outcomes):
-                        if o is not None and abs(float(ss["probs"][sidx][o]) - 1.0) > 1e-9:
-                            msgs.append(f"subcircuit {sidx}: probability of the only possible outcome {o} is {ss['probs'][sidx][o]}")
-                            break
-                judge("scale_run_like_explicit", not msgs, f"run [{rv}] of the subcircuit spelling vs reference: " + "; ".join(msgs))
+                    judge("scale_run_like_explicit", not msgs, f"run [{rv}] of the subcircuit spelling vs reference: " + "; ".join(msgs))
         # --- output parsing -----------------------------------------------------------------------------------
         outs, vals = make_outputs(R, v["outs"], rng, len(ref.visits), p["nq"])
         with_freq = p["nq"] <= 16
         ke, ge = attempt(R, lambda: R["outlist"](ce, outs))
         ks, gs = attempt(R, lambda: R["outlist"](cs, outs))
         if ke != "ok":
-            if big <= NEST_LIMIT or "nested too deeply" not in ge:
-                judge("scale_accepted", False, f"parse_jaqal_output_list [{v['outs']}] refuses the explicit spelling: {ge[:200]}")
+            col.count("explicit_spelling_refused:output:" + ("nested too deeply" if "nested too deeply" in ge else ke))
             if ks == "ok":
                 judge("scale_output_like_explicit", False, f"parse_jaqal_output_list: explicit spelling refused ({ge[:100]}), subcircuit spelling accepted")
+        elif ks != "ok" and big > NEST_LIMIT and "nested too deeply" in gs:
+            col.count("beyond_nest_limit:subcircuit_spelling_one_level_deeper")
         elif ks != "ok":
-            judge("scale_output_like_explicit", False, f"parse_jaqal_output_list [{v['outs']}]: the subcircuit spelling raises JaqalError: {gs[:200]} - the explicit spelling is parsed")
+            judge("scale_output_like_explicit", False, f"parse_jaqal_output_list [{v['outs']}]: the subcircuit spelling raises {ks}: {gs[:200]} - the explicit spelling is parsed")
         else:
             se, ss = summarize_out(R, ge, with_freq), summarize_out(R, gs, with_freq)
             d = same_summary(R, se, ss)
             judge("scale_output_like_explicit", d is None, f"parse_jaqal_output_list [{v['outs']}]: explicit vs subcircuit spelling: {d}")
-            msgs = []
-            if ss["nsub"] != len(ref.outcomes):
-                msgs.append(f"{ss['nsub']} subcircuits, reference {len(ref.outcomes)}")
-            elif ss["visits"] != ref.visits:
-                msgs.append(f"attribution {str(ss['visits'])[:80]} != reference {str(ref.visits)[:80]}")
-            elif ss["values"] != vals:
-                msgs.append(f"values {str(ss['values'])[:80]} != the outputs given {str(vals)[:80]}")
-            judge("scale_output_like_explicit", not msgs, f"parse_jaqal_output_list [{v['outs']}] of the subcircuit spelling vs reference: " + "; ".join(msgs))
+            msgs, msgs_e = ref_out(ref, ss, vals), ref_out(ref, se, vals)
+            if msgs and msgs_e:
+                col.count("reference_differs_from_both_spellings:output")
+            else:
+                judge("scale_output_like_explicit", not msgs, f"parse_jaqal_output_list [{v['outs']}] of the subcircuit spelling vs reference: " + "; ".join(msgs))
         judge("scale_terminates", True)
     except Hang:
         T.saw_hang()
@@ -1395,7 +1442,21 @@ def specs(seed, n, thorough):
             g += [(sh, 140) for sh in SHAPES[st]]      # beyond NEST_LIMIT: only "same refusal for both spellings" is demanded
         if st == "chain" and not thorough:
             g = [(sh, min(sz, 100) if sh.startswith("alias") else sz) for sh, sz in g]
-        rng.shuffle(g)
+        # every size once before any size twice (sizes in random order, shapes rotating), so that a short run crosses every threshold
+        by_size = {}
+        for sh, sz in g:
+            by_size.setdefault(sz, []).append(sh)
+        for sz in by_size:
+            rng.shuffle(by_size[sz])
+        sizes = list(by_size)
+        g = []
+        rnd = 0
+        while any(by_size.values()):
+            rng.shuffle(sizes)
+            for j, sz in enumerate(sizes):
+                if by_size[sz]:
+                    g.append((by_size[sz].pop((rnd + j) % len(by_size[sz])), sz))
+            rnd += 1
         grids[st] = g
     # share of the cases per stream
     weights = {"depth": 4, "chain": 3, "header": 3, "wide": 3, "iter": 2, "qubits": 1, "names": 4, "defaults": 5}
@@ -1448,7 +1509,7 @@ def replay(case, driver=DEFAULT_DRIVER):
 def main():
     ap = argparse.ArgumentParser()
     ap.add_argument("--seed", type=int, default=0)
-    ap.add_argument("--n", type=int, default=250)
+    ap.add_argument("--n", type=int, default=100)
     ap.add_argument("--thorough", action="store_true")
     a = ap.parse_args()
     r = run(a.seed, a.n, thorough=a.thorough)
